@@ -58,6 +58,8 @@ def run(res, tier, seed, shard, nshards):
     W = H.ws()
     rng = random.Random((seed << 8) ^ shard ^ 0xC20)
     H.scrub_env()
+    if shard == 0:
+        H.contracts_workload(res, ["SimpleCookieJar.get"])
     kinds_ab = [(d, cs) for d in DOMAINS for cs in cookie_sets(("a", "b"))]
     kinds_pre = [(d, cs) for d in DOMAINS for cs in cookie_sets(("a", "a-b"))]
     histories = []
